@@ -154,8 +154,8 @@ theorem startSelf_sh {R : Nat} (hR : 0 < R) {EA EB : Engine} (hE : EngSh R EA EB
 /-! ### Jobs, target lists, commands -/
 
 /-- The two environments `redo-unlocked` runs its `redo-ifchange` commands in. -/
-def oobCx1 (d : Defects) (cx : Ctx) : Ctx :=
-  { cx with noOob := true, unlocked := false, isRedo := false, parent := if d.oobRecordsDepsOnCaller then cx.parent else none }
+def oobCx1 (d : Defects) (cx : Ctx) (t : Nat) : Ctx :=
+  { cx with noOob := true, unlocked := false, isRedo := false, cycles := t :: cx.cycles, parent := if d.oobRecordsDepsOnCaller then cx.parent else none }
 
 def oobCx2 (cx : Ctx) : Ctx := { cx with noOob := true, unlocked := true, isRedo := false }
 
@@ -163,7 +163,7 @@ def oobOrder (w : World) (ts : List Nat) : List Nat := if w.oobRev then ts.erase
 
 /-- `redo-unlocked t deps…`. -/
 def oobRun (E : Engine) (d : Defects) (cx : Ctx) (t : Nat) (ts : List Nat) (w : World) : JobResult × World :=
-  match E.ifchangeCmd (oobCx1 d cx) (oobOrder w ts) w with
+  match E.ifchangeCmd (oobCx1 d cx t) (oobOrder w ts) w with
   | (0, w1) =>
     let r := E.ifchangeCmd (oobCx2 cx) (if d.oobRebuildsDepsNotTarget then oobOrder w ts else [t]) w1
     (.done r.1, r.2)
@@ -202,10 +202,10 @@ theorem oobRun_sh {R : Nat} {EA EB : Engine} (hE : EngSh R EA EB) (d : Defects) 
     oobRun EB d (shCx cx) t ts (shW R w) = sh2 R (oobRun EA d cx t ts w) := by
   unfold oobRun
   have e0 : oobOrder (shW R w) ts = oobOrder w ts := rfl
-  have e2 : oobCx1 d (shCx cx) = shCx (oobCx1 d cx) := rfl
+  have e2 : oobCx1 d (shCx cx) t = shCx (oobCx1 d cx t) := rfl
   have e3 : oobCx2 (shCx cx) = shCx (oobCx2 cx) := rfl
-  rw [e0, e2, e3, hE _ _ _ (show (oobCx1 d cx).runid = R from hcx)]
-  generalize EA.ifchangeCmd (oobCx1 d cx) (oobOrder w ts) w = r1
+  rw [e0, e2, e3, hE _ _ _ (show (oobCx1 d cx t).runid = R from hcx)]
+  generalize EA.ifchangeCmd (oobCx1 d cx t) (oobOrder w ts) w = r1
   obtain ⟨rv, w2⟩ := r1
   by_cases hrv : rv = 0
   · subst hrv
